@@ -149,6 +149,16 @@ class Eval:
                     env[i] = ("orbind", tuple(vals))
             return
         if k == "Slice":
+            base = term if not path else (proj_reduce(term, path) if isinstance(term, tuple) else None)
+            if isinstance(base, tuple) and base[:1] == ("list",):
+                # a literal list: `[a, b, .., z]` binds by position
+                n_ = len(base[1])
+                for i, q in enumerate(p.get("before", [])):
+                    self.bind_pat(q, term, env, default_param, path + (("tuple", str(i)),))
+                na = len(p.get("after", []))
+                for j, q in enumerate(p.get("after", [])):
+                    self.bind_pat(q, term, env, default_param, path + (("tuple", str(n_ - na + j)),))
+                return
             for q in p.get("before", []) + p.get("after", []):
                 self.bind_pat(q, term, env, default_param, path + (("slice", "?"),))
             return
@@ -1108,6 +1118,18 @@ def pat_vs_term(p, t):
                     res = None
                 continue
             m = pat_vs_term(q, fields[name])
+            if m is False:
+                return False
+            if m is None:
+                res = None
+        return res
+    if k == "Slice" and t[0] == "list":
+        nb, na, n_ = len(p.get("before", [])), len(p.get("after", [])), len(t[1])
+        if ("mid" in p and n_ < nb + na) or ("mid" not in p and n_ != nb + na):
+            return False
+        res = True
+        for q, x in list(zip(p.get("before", []), t[1])) + list(zip(p.get("after", []), t[1][n_ - na:] if na else ())):
+            m = pat_vs_term(q, x)
             if m is False:
                 return False
             if m is None:
